@@ -328,6 +328,24 @@ fn classify(rule: &str, input: &str, what: &str) -> String {
                 .map(|c| if c.is_alphanumeric() { c } else { '_' })
                 .collect();
             let level = if rule.starts_with("grammar") { "grammar" } else { "queryparser" };
+            if msg.starts_with("Exist_query_without_a_field") {
+                // the recorded finding: a bare '*' directly followed by a non-ASCII whitespace character, or an
+                // occur marker, ASCII whitespace, then '*'. The same panic on any other input is not listed.
+                let chars: Vec<char> = input.chars().collect();
+                let star_then_nbsp = chars.windows(2).any(|w| w[0] == '*' && w[1].is_whitespace() && !w[1].is_ascii());
+                let marker_ws_star = (0..chars.len()).any(|i| {
+                    (chars[i] == '+' || chars[i] == '-') && {
+                        let mut j = i + 1;
+                        while j < chars.len() && (chars[j] == ' ' || chars[j] == '\t') {
+                            j += 1;
+                        }
+                        j > i + 1 && j < chars.len() && chars[j] == '*'
+                    }
+                });
+                if !(star_then_nbsp || marker_ws_star) {
+                    return format!("{level}_panic:{msg}_on_unlisted_input");
+                }
+            }
             return format!("{level}_panic:{msg}");
         }
     }
